@@ -338,6 +338,27 @@ Theorem C18_dclean_at_all_devices : forall st n, dclean_ok st n <-> forall d, dc
 Proof. exact dclean_ok_at. Qed.
 Print Assumptions C18_dclean_at_all_devices.
 
+(* the observation-level check evaluates the per-(name, device) status: its trackers are Spec.ptrack_awg / ptrack_dac on
+   the model's own views, and its per-device clauses (Corr.perdev_obs_awg / perdev_obs_dac: every name that is not lost,
+   at every device of the bench where it is not dirty, satisfies the routing clauses - covered names included) accept
+   the model's view after EVERY history *)
+Theorem C18_optrack_awg_is_ptrack : forall dm na nd st o e0 dl,
+  optrack_awg o (view na nd e0 st) (view na nd (snd (step dm st o)) (fst (step dm st o))) dl = ptrack_awg dm st o dl.
+Proof. exact optrack_awg_view. Qed.
+Print Assumptions C18_optrack_awg_is_ptrack.
+
+Theorem C18_optrack_dac_is_ptrack : forall dm na nd st o e0 dl,
+  optrack_dac o (view na nd e0 st) (view na nd (snd (step dm st o)) (fst (step dm st o))) dl = ptrack_dac dm st o dl.
+Proof. exact optrack_dac_view. Qed.
+Print Assumptions C18_optrack_dac_is_ptrack.
+
+Theorem C18_perdev_obs_accepts_model : forall dm h na nd e,
+  let t := trun dm tinit h in
+  perdev_obs_awg dm (t_awg t) (prun dm init_state [] h) (view na nd e (t_st t)) = true
+  /\ perdev_obs_dac (t_dac t) (prun_dac dm init_state [] h) (view na nd e (t_st t)) = true.
+Proof. exact perdev_obs_histories. Qed.
+Print Assumptions C18_perdev_obs_accepts_model.
+
 (* the post-condition clauses of the observation-level framed check (Corr.fpost_ok: remove / clear / arm / run /
    update_parameters by status, register: the record is the program just given, other records untouched; Corr.logs_ok:
    only run_program calls a callback, only update_parameters hands out parameters) accept the model's own views for
@@ -354,7 +375,8 @@ Theorem C18_fpost_accepts_model : forall dm h na nd o e0,
 Proof. intros dm h na nd o e0 Hw Ho t He Hr. exact (fpost_model dm h na nd Hw o e0 Ho He Hr). Qed.
 Print Assumptions C18_fpost_accepts_model.
 
-(* ... hence Corr.check_framed AS A WHOLE (status tracking, framed invariant, post-conditions, call logs; it keeps
+(* ... hence Corr.check_framed AS A WHOLE (status tracking per name and per (name, device), framed invariant, per-device
+   clauses, post-conditions, call logs; it keeps
    speaking after raising calls) accepts the model's own trace of every history of well-formed operations on a bench
    that contains every recorded device: a VIOLATION verdict of the framed check on the implementation's observations
    is always a disagreement with a proved statement about the model, never an artefact of the boolean check *)
